@@ -61,11 +61,21 @@ Definition sender_ok (t : tid) (m : cmd) : Prop :=
 Definition pcsend_ok (t : tid) (pcv : pcT) : Prop :=
   match pcv with
   | PSend (CStopAck f) _ | PSend (CReport _ _ f) _ | PSend (CQuitAck f) _ => f = t
+  | PSend _ _ => False
   | PSendW m => m = CStopAck t
   | _ => True
   end.
 Definition is_startish (m : cmd) : Prop := m = CInit \/ exists j, m = CStart j.
 Definition fwd_startish (w : fwd) : Prop := w = FInit \/ exists j, w = FStart j.
+
+(** a queued STOP_SEARCH is never followed by an INIT_SEARCH / START_SEARCH *)
+Definition startfree (l : list cmd) : Prop := forall m, In m l -> ~ is_startish m.
+Fixpoint sclean (l : list cmd) : Prop :=
+  match l with
+  | [] => True
+  | CStop :: r => startfree r
+  | _ :: r => sclean r
+  end.
 
 Record InvE (s : state) : Prop := {
   e_phase : exists ph, mphase (pc (th s 0)) = Some ph /\
@@ -89,6 +99,7 @@ Record InvE (s : state) : Prop := {
            rest <> [] /\ NoDup rest /\ (forall x, In x rest -> In x (children N parent t));
   e_snd : forall t m, t <= N -> In m (qu s t) -> sender_ok t m;
   e_pcs : forall t, t <= N -> pcsend_ok t (pc (th s t));
+  e_sc : forall c, helper c -> sclean (qu s c);
   e_j2 : forall c m, helper c -> In m (qu s c) -> is_startish m -> S (se (th s c)) = sid s;
   e_j3 : forall t w k rest, t <= N -> pc (th s t) = PFwd w k rest -> fwd_startish w ->
            S (se (th s t)) = sid s
